@@ -303,7 +303,11 @@ def r14_5_6(ctx: Ctx, cg: CallGraph) -> None:
             if d.split(".")[-1] in ("lru_cache", "cache", "cached_property"):
                 io = [c for c in ast.walk(fi.node) if isinstance(c, ast.Call) and (dotted(c.func) in ("open",) or
                       (isinstance(c.func, ast.Attribute) and c.func.attr in ("read_text", "read_bytes", "read", "exists", "stat")))]
-                ctx.instance("R14.6", fi.where(), f"{short} memoised ({d}); reads external state: {bool(io)}")
+                from ..effects import memo_is_pure
+                pure, why_pure = memo_is_pure(pm, fi)
+                ctx.instance("R14.6", fi.where(), f"{short} memoised ({d}); reads external state: {bool(io)}; pure in its arguments: {pure} ({why_pure})")
+                if pure and not io:
+                    continue
                 ctx.violation("R14.6", short, f"memoised {d}", fi.where(),
                               f"{short} is memoised ({d}) on the encode path" + ("; it reads files, so a later encode returns stale content" if io else
                               "; a value computed for one document is served to later ones (keys must capture every input)"))
